@@ -34,6 +34,9 @@ class BoxLoop(FrameInvLoop):
     def __init__(self, prefix):
         self.prefix = prefix
 
+    eager = False      # True: the index at which BOX is re-proved is fixed when the loop state is havocked and every universally
+                       # quantified fact produced by the body (reductions, np.any/all) is also instantiated there
+
     def inv(self, L, env, mode):
         step, xl, xu = env["step"], env["xl"], env["xu"]
         n = step.n
@@ -41,8 +44,15 @@ class BoxLoop(FrameInvLoop):
         if mode == "assume":
             j = z3.Int("vcx_j")
             out.append(("box", z3.ForAll([j], z3.Implies(z3.And(0 <= j, j < n), box_at(step, xl, xu, j)), patterns=[step.at(j).r])))
+            if self.eager:
+                i = z3.Int(L.c.fresh_name("vcx_any"))
+                L.st["i_star"] = i
+                L.c.ghost.setdefault("instantiate_at", []).append(i)
+                L.c.assume(z3.And(0 <= i, i < n))          # an arbitrary index (the out-of-range case of the goal is trivial)
+                out.append(("box_at_the_index", box_at(step, xl, xu, i)))
+                out.append(("bounds_contain_the_origin", z3.And(xl.at(i).r <= 0, xu.at(i).r >= 0)))
         else:
-            i = z3.Int(L.c.fresh_name("vcx_any"))
+            i = L.st.get("i_star") if self.eager and "i_star" in L.st else z3.Int(L.c.fresh_name("vcx_any"))
             out.append(("box", z3.Implies(z3.And(0 <= i, i < n), box_at(step, xl, xu, i))))
         if "n_act" in env and env["n_act"] is not None:
             out.append(("n_act_in_range", z3.And(0 <= it(env["n_act"]), it(env["n_act"]) <= it(env["n"]))))
@@ -193,3 +203,74 @@ class TangentialBox(Unit):
 
 
 UNITS.append(TangentialBox())
+
+
+# ---- the boundary (rotation) loop of tangential_byrd_omojokun in REAL arithmetic ---------------------------------------------------
+# The rotation  step <- cos(theta) step + sin(theta) sd  is not clipped: BOX rests on the cap t_bd of tan(theta/2).  Per component
+# (s = step_i, d = sd_i, u = xu_i >= 0 >= ... ) the argument is:  with t <= 1 and, when s^2 + d^2 > u^2 and sqrt(s^2+d^2-u^2) + d >
+# TINY (u - s), t <= (u - s) / (sqrt(s^2+d^2-u^2) + d), the rotated component ((1-t^2) s + 2 t d) / (1+t^2) stays <= u (and the
+# mirror image for the lower bound).  The truncated-CG loop before it is replaced by its proved summary (BOX, unit tcgbox.tangential).
+class AssumeBoxFrame(FrameInvLoop):
+    """frame-only cut that continues with the loop's proved invariant BOX instead of nothing"""
+
+    def after_havoc(self, L, env, out):
+        env2 = dict(env)
+        env2.update(out)
+        step, xl, xu = env2["step"], env2["xl"], env2["xu"]
+        j = z3.Int("vcx_j")
+        L.c.assume(z3.ForAll([j], z3.Implies(z3.And(0 <= j, j < step.n), box_at(step, xl, xu, j)), patterns=[step.at(j).r]))
+
+
+def optim_shadow_trot():
+    if "trot" not in _SH:
+        rot = BoxLoop("C15.tangential.boundary_loop")
+        rot.eager = True
+        specs = {"t.loop0.summary": AssumeBoxFrame(), "t.loop1": rot}
+        cuts = {("tangential_byrd_omojokun", 0): ("t.loop0.summary", "frame"), ("tangential_byrd_omojokun", 1): "t.loop1"}
+        _SH["trot"] = shadow("cobyqa.subsolvers.optim", specs=specs, cuts=cuts, expect_loops={"tangential_byrd_omojokun": 2})
+    return _SH["trot"]
+
+
+class TangentialRotationBox(Unit):
+    name = "tcgbox.tangential_rotation"
+    props = ("C15", "C01")
+    fmodel = "REAL"
+    functions = [("cobyqa.subsolvers.optim", "tangential_byrd_omojokun")]
+    parallel = True
+    path_budget = 1
+    timeout_ms = 30000
+    assumptions = ["REAL model: machine arithmetic treated as mathematical (rounding residues of the rotation, of the order of an ulp of "
+                   "the bound, are not covered); finite bounds (with an infinite bound that side needs no cap)",
+                   "the truncated-CG loop is replaced by its summary BOX proved in unit tcgbox.tangential",
+                   "hess_prod is any function of its argument; the number of sampled angles is defined and non-negative"]
+
+    def run(self, c):
+        m = optim_shadow_trot()
+        c.ghost["assume_sample_count_defined"] = True
+        c.ghost["instantiate_at_witnesses"] = True
+        n = z3.Int(c.fresh_name("n"))
+        c.assume(n >= 1)
+        grad = vecs.fresh_vec("grad", n, finite=True)
+        xl0 = vecs.fresh_vec("xl", n, finite=True)
+        xu0 = vecs.fresh_vec("xu", n, finite=True)
+        delta = SF.fresh("delta", finite=True)
+        c.assume(delta.r > 0)
+        hp_cache = {}
+
+        def hess_prod(v):
+            if v.cid not in hp_cache:
+                hp_cache[v.cid] = (v, vecs.fresh_vec("Hv", n, finite=True))
+            return hp_cache[v.cid][1]
+        m.__dict__["_alpha_tr"] = lambda step, sd, delta_: SF.fresh("alpha_tr", finite=True)
+        kind, res = call_expecting(c, "C08.tangential", lambda: m.tangential_byrd_omojokun(grad, hess_prod, xl0, xu0, delta, False, improve_tcg=True), ())
+        i = z3.Int(c.fresh_name("vcx_any"))
+        lo = z3.If(xl0.at(i).r <= 0, xl0.at(i).r, 0)
+        hi = z3.If(xu0.at(i).r >= 0, xu0.at(i).r, 0)
+        e = res.at(i)
+        c.oblige("C15.tangential.returned_step_within_bounds", z3.Implies(z3.And(0 <= i, i < n), z3.Or(e.nan, z3.And(lo <= e.r, e.r <= hi))),
+                 props=["C15", "C01"], note="the step returned by tangential_byrd_omojokun leaves [min(xl,0), max(xu,0)]")
+
+
+# NOT registered: the obligations of the rotation do not discharge (z3/cvc5 return unknown even on the 55 assertions that mention the
+# index, nonlinear real arithmetic with nested ite/sqrt/division); kept as a record of the attempt, see DESIGN.md
+# UNITS.append(TangentialRotationBox())
